@@ -740,15 +740,15 @@ def run(ctx):
     res.notes.append(f"exhaustive: every operation sequence of length <= {max(lens)} over a {len(al)}-operation alphabet on e0,p0,c0 (barrier rule, "
                      f"measurement idioms, identities); every OneQubitGateWrapper of length <= {3 if q else 4} over the 7 one-qubit classes")
     # 2. random circuits, small registers (state oracle applies)
-    run_circuits(res, drv, random_specs(rng, 500 if q else 4000, lambda r: (r.randrange(1, 4), r.randrange(1, 4), r.randrange(1, 3), r.randrange(1, 16))))
+    run_circuits(res, drv, random_specs(rng, 900 if q else 12000, lambda r: (r.randrange(1, 4), r.randrange(1, 4), r.randrange(1, 3), r.randrange(1, 16))))
     # 3. many registers: multi-digit indices
-    run_circuits(res, drv, random_specs(rng, 120 if q else 1200, lambda r: (r.randrange(9, 15), r.randrange(9, 15), r.randrange(1, 14), r.randrange(5, 40))),
+    run_circuits(res, drv, random_specs(rng, 250 if q else 3000, lambda r: (r.randrange(9, 15), r.randrange(9, 15), r.randrange(1, 14), r.randrange(5, 40))),
                  state_check=False)
     # 4. importers on arbitrary inputs
-    run_parser_stream(res, drv, rng, 1500 if q else 15000)
-    run_text_stream(res, drv, rng, 800 if q else 8000)
-    run_json_stream(res, drv, rng, 600 if q else 6000)
-    run_names(res, drv, rng, 1500 if q else 15000)
+    run_parser_stream(res, drv, rng, 2500 if q else 40000)
+    run_text_stream(res, drv, rng, 1500 if q else 25000)
+    run_json_stream(res, drv, rng, 1000 if q else 15000)
+    run_names(res, drv, rng, 2500 if q else 30000)
     res.extra["driver_lines"] = drv.n_lines
     drv.close()
     return res
